@@ -8,7 +8,7 @@
 #              both accesses are inside these
 META = {
     "pending_reason": "not claimed yet: the monitor for this property is still being built (see DESIGN.md Appendix C); the technique applies",
-    "hook_commits": ["8c2d351", "da19a0b", "454f561"],
+    "hook_commits": ["8c2d351", "da19a0b", "454f561", "824469c"],
     "notes": "All checks are runtime monitors over executions of the real code built from /repo's working tree (go test -overlay, tag verif). Verdicts: exit 0 held on what was observed, exit 1 VIOLATION, exit 2 broken/inconclusive run. Known findings: known_findings.json.",
     "engines": [
         {"name": "vcheck", "path": "/verif/vcheck", "serves_properties": [], "kind_free_text": "python driver: overlay build of /repo + harness, sharded runs, merge of observations, known-findings matching, evidence"},
@@ -99,8 +99,8 @@ CHECKS = {
     "C16": {
         "level": "exploration",
         "technique": "runtime monitoring: client-boundary history checker of concurrent RemoteClient calls against a scripted loopback server with self-identifying responses, under the Go race detector in the thorough tier",
-        "level_text": "Each round starts the real RemoteClient against a scripted TCP server and issues 2-24 concurrent calls with distinct keys; the server answers by script (permuted by delays, duplicated, rejected, never, after the time-out) and interleaves unsolicited responses. Every response identifies its key, so the oracle checks per call that the returned value / RejectError / Timeout is the one scripted for that call, and that a time-out is not early. Outputs-lookup rounds cover repeated txids and out-of-range indexes. Exploration: schedules and response orders are unbounded. Pairs of calls of one kind are staggered so that the first times out while the second is pending; a second wave retries keys that were rejected or never answered; height 0 is a key.",
-        "level_note": "Trusted: the scripted server (uses the repository's own message codecs and key derivation). An answered call that times out is only judged when the answer was on the wire >300 ms before the deadline and the round reproduces when re-run alone.",
+        "level_text": "Each round starts the real RemoteClient against a scripted TCP server and issues 2-24 concurrent calls with distinct keys; the server answers by script (permuted by delays, duplicated, rejected, never, after the time-out) and interleaves unsolicited responses. Every response identifies its key, so the oracle checks per call that the returned value / RejectError / Timeout is the one scripted for that call, and that a time-out is not early. Outputs-lookup rounds cover repeated txids and out-of-range indexes. Exploration: schedules and response orders are unbounded. Pairs of calls of one kind are staggered so that the first times out while the second is pending; a second wave retries keys that were rejected or never answered; height 0 is a key. In two rounds of five a hook slows the goroutine that owns the pending-request list (1 ms per iteration), so registrations and responses wait in its channels together as on a loaded machine; in one round of ten it is stalled once for longer than the request time-out while every call is unanswered, so registrations and deregistrations wait together and the second wave asks for the same keys.",
+        "level_note": "Trusted: the scripted server (uses the repository's own message codecs and key derivation). An answered call that times out is only judged when the answer was on the wire >120 ms (220 ms in the slowed rounds) before the deadline and the round reproduces when re-run alone.",
         "runs": [
             {"pkg": "pkg/client", "test": "TestVerif_C16", "shards": {"quick": 8, "thorough": 16}},
         ],
